@@ -311,6 +311,16 @@ class BuiltinMixin:
     def bi_bytes(self, args, kw, node):
         if not args:
             return VC(b'')
+        a = args[0]
+        if a.k in ('list', 'tuple') or (a.k == 'const' and isinstance(a.t, B.Items)):
+            items = self.iter_concrete(a)
+            if not items:
+                return VC(b'')
+            us = [z3.Unit(self.as_int(x)) for x in items]
+            return SV('bytes', z3.simplify(us[0] if len(us) == 1 else z3.Concat(*us)))
+        return SV('bytes', self.as_seq(a))
+
+    def bi_ascii_bytes(self, args, kw, node):
         return SV('bytes', self.as_seq(args[0]))
 
     def bi_next(self, args, kw, node):
